@@ -275,6 +275,26 @@ func main() {
 		for _, l := range lines {
 			fmt.Println(l)
 		}
+		// part 2: the goroutine bodies that build on this unit
+		for _, cs := range concSpecs {
+			if cs.part1 != spec.file {
+				continue
+			}
+			ctext, centries, err := u.translateConc(cs)
+			if err != nil {
+				fmt.Fprintf(os.Stderr, "gotrans: %s: %v\n", cs.file, err)
+				status = 2
+				continue
+			}
+			if err := os.WriteFile(filepath.Join(outdir, cs.file), []byte(ctext), 0o644); err != nil {
+				fail(1, "%v", err)
+			}
+			for _, e := range centries {
+				fmt.Printf("%s %s generated %s\n", cs.file, e.Go, e.Coq)
+			}
+			sort.Slice(centries, func(i, j int) bool { return centries[i].Go < centries[j].Go })
+			index[cs.file] = centries
+		}
 	}
 	if only == "" {
 		var buf bytes.Buffer
